@@ -14,6 +14,39 @@ pub fn violation(oracle: &str, msg: &str) -> ! {
     panic!("{oracle}: {msg}")
 }
 
+/// Message (and for foreign panics the location) of the FIRST panic of this process.
+/// After a task has panicked shuttle lets the other tasks drain, which can raise
+/// secondary panics (poisoned lock, closed semaphore); the payload that finally reaches
+/// the runner thread may be one of those, so the verdict is taken from the first one.
+static FIRST_PANIC: Mutex<Option<String>> = Mutex::new(None);
+
+/// Install before the first shuttle Runner is created: shuttle chains to the hook that
+/// is installed at that time after persisting the schedule. Keeps stderr quiet.
+pub fn install_first_panic_hook() {
+    std::panic::set_hook(Box::new(|info| {
+        let p = info.payload();
+        let text = if let Some(s) = p.downcast_ref::<String>() {
+            s.clone()
+        } else if let Some(s) = p.downcast_ref::<&str>() {
+            s.to_string()
+        } else {
+            "<non-string panic payload>".into()
+        };
+        let mut slot = FIRST_PANIC.lock().unwrap_or_else(|e| e.into_inner());
+        if slot.is_none() {
+            let at_oracle = text.starts_with("C17.");
+            *slot = Some(match info.location() {
+                Some(l) if !at_oracle => format!("{text} [at {}:{}]", l.file(), l.line()),
+                _ => text,
+            });
+        }
+    }));
+}
+
+pub fn take_first_panic() -> Option<String> {
+    FIRST_PANIC.lock().unwrap_or_else(|e| e.into_inner()).take()
+}
+
 pub fn fnv1a(h: &mut u64, bytes: &[u8]) {
     for b in bytes {
         *h ^= *b as u64;
